@@ -169,6 +169,7 @@ theorem pend_leaves : Leaves (keeps PendInv) where
   removeConn := fun _ _ h => h
   connect := fun _ _ _ _ _ _ h => h
   setFull := fun _ _ h => h
+  setPolicy := fun _ _ h => h
 
 /-- in every reachable state no slot (caller, callee, serial) is recorded twice -/
 theorem pending_never_duplicated (tbl : List IfaceRow) (l : Limits) (p : Policy) (evs : List Ev) :
